@@ -11,6 +11,7 @@ SESSION = "netconf::session::Session::<T>"
 GUARD_PREFIX = "tokio::sync::MutexGuard<"
 
 EXPLANATION = (
+    "[Method] R2/R3: Session::recv is explored once per (own slot state x state of the slot of the reply that is read), take() once per slot state with its stores through &mut modelled; R1/R4/R5 on borrowck-time MIR (origins, dominance, guard live ranges). R1 also: the counter is advanced before the send and no write to it can follow the send; R5 also: the own-slot check happens under the receive lock and the same guard is held until the read. "
     "C05/R1: Request::new is called only in Session::rpc with the value returned by MessageId::increment on "
     "self.last_message_id (the only writer of that field); increment is `self.0 += 1; *self`; rpc takes &mut self and "
     "Session is not Clone, so ids on a session are strictly increasing. C05/R2: in Session::recv the only PartialReply that "
